@@ -54,7 +54,7 @@ Definition seen_ok (x : status) (cur : status) : Prop :=
 
 Definition rd_ok (s : sess) : Prop :=
   match rd s with
-  | D2 x | D3 x | D4 x | D5 x => seen_ok x (st s)
+  | D2 x | D3 x | D4 x | D5 x | DC x => seen_ok x (st s)
   | D6 | D8 => st s = PassiveClosing
   | D1 ActiveClosing => st s = ActiveClosing \/ st s = ActiveClosed
   | _ => True
@@ -103,7 +103,7 @@ Qed.
 
 Lemma visit_step_ctrl s i s' : visit_step s i = Some s' -> same_ctrl s s'.
 Proof.
-  unfold visit_step. destruct (rd s); try discriminate.
+  unfold visit_step. destruct (rd_cancel (rd s)) eqn:Erc; [|discriminate]. unfold visit_body.
   destruct (nth_error (calls s) i) as [c|]; [|discriminate].
   destruct (c_tab c && negb (c_vis c) && mu_free c); [|discriminate].
   destruct (negb (c_rep c) && cstat_ok (c_stat c)); intros H; inversion H; subst; ctrl_tac.
@@ -201,7 +201,7 @@ Qed.
 (* readDisconnected proper *)
 Lemma reader_step_disc s b s' fx :
   stat_inv s -> reader_step fixed s b = Some (s', fx) ->
-  match rd s with D0 | D1 _ | D2 _ | D3 _ | D4 _ | D5 _ | D6 | D8 => True | _ => False end ->
+  match rd s with D0 | D1 _ | D2 _ | D3 _ | D4 _ | D5 _ | D6 | D8 | DC _ => True | _ => False end ->
   stat_inv s'.
 Proof.
   intros (Hc & Hr & Hn & Hh & He) H Hpc. unfold reader_step in H.
@@ -225,6 +225,7 @@ Proof.
   - inversion H; subst; clear H. unfold notify; cbn. rewrite Hr in *.
     destruct (notified s) eqn:En; cbn; rewrite ?En;
       destruct (cl s) eqn:Ecl; cbn in *; intuition (try congruence; try discriminate; try lia).
+  - destruct (all_visited (calls s)); inversion H; subst; clear H; cbn. intuition (try congruence; try discriminate).
 Qed.
 
 Lemma stat_inv_step s e s' fx : stat_inv s -> sstep s e = Some (s', fx) -> stat_inv s'.
@@ -311,6 +312,7 @@ Proof.
     + destruct seen; inversion H; subst; apply ch_same; reflexivity.
     + inversion H; subst; apply ch_same; reflexivity.
     + inversion H; subst. apply ch_d8; auto. unfold notify; cbn. destruct (notified s); reflexivity.
+    + destruct (all_visited (calls s)); inversion H; subst; apply ch_same; reflexivity.
   - unfold noeff in H. destruct (visit_step s i) eqn:E; inversion H; subst.
     apply ch_same. apply (visit_step_ctrl _ _ _ E).
   - unfold noeff in H. destruct (caller_step s i veto wr) eqn:E; inversion H; subst.
@@ -451,7 +453,7 @@ Qed.
 Lemma visit_step_ic s i s' : ic_inv s -> visit_step s i = Some s' -> ic_inv s'.
 Proof.
   intros (Hc & Hp & Hb) H.
-  unfold visit_step in H. destruct (rd s) eqn:Erd; try discriminate.
+  unfold visit_step in H. destruct (rd_cancel (rd s)) eqn:Erc; [|discriminate]. unfold visit_body in H.
   destruct (nth_error (calls s) i) as [c|] eqn:En; [|discriminate].
   pose proof (Forall_nth _ _ _ _ Hc En) as Hci. unfold call_ic_ok in Hci.
   destruct (c_tab c) eqn:Et; [|discriminate]. cbn in H.
@@ -463,7 +465,7 @@ Proof.
   destruct (negb (c_rep c) && cstat_ok (c_stat c)); inversion H; subst; clear H;
     unfold ic_inv, fail_call, done_call; cbn; repeat split; auto;
     try (apply Forall_upd; auto; unfold call_ic_ok; cbn; congruence);
-    unfold bound_ok; cbn; rewrite Erd; exact I.
+    unfold bound_ok; cbn; destruct (rd s); try discriminate Erc; exact I.
 Qed.
 
 Lemma handler_step_ic s j v w s' : ic_inv s -> handler_step s j v w = Some s' -> ic_inv s'.
@@ -588,6 +590,8 @@ Proof.
   - inversion H; subst; clear H.
     eapply ic_inv_same; [split; [exact Hc|split; [exact Hp|exact Hb]]| | |exact I|exact Hmono];
       unfold notify; cbn; destruct (notified s); reflexivity.
+  - destruct (all_visited (calls s)); inversion H; subst; clear H.
+    (eapply ic_inv_same; [split; [exact Hc|split; [exact Hp|exact Hb]]|reflexivity|reflexivity|exact I|exact Hmono]).
 Qed.
 
 Lemma ic_inv_step s e s' fx : stat_inv s -> ic_inv s -> sstep s e = Some (s', fx) -> ic_inv s'.
@@ -675,9 +679,10 @@ Proof.
     + destruct seen; inversion H; subst; cbn; auto.
     + inversion H; subst; cbn; auto.
     + inversion H; subst; unfold notify; cbn. destruct (notified s); cbn; auto.
+    + destruct (all_visited (calls s)); inversion H; subst; cbn; auto.
   - unfold noeff in H. destruct (visit_step s i) eqn:E; inversion H; subst.
     pose proof (visit_step_ctrl _ _ _ E) as (_ & _ & _ & Er & _). rewrite Er.
-    unfold visit_step in E. destruct (rd s); try discriminate.
+    unfold visit_step in E. destruct (rd_cancel (rd s)) eqn:Erc; [|discriminate]. unfold visit_body in E.
     destruct (nth_error (calls s) i) as [c|]; [|discriminate].
     destruct (c_tab c && negb (c_vis c) && mu_free c); [|discriminate].
     destruct (negb (c_rep c) && cstat_ok (c_stat c)); inversion E; subst; cbn; auto.
